@@ -1,5 +1,125 @@
+import NA.Model.AsaEngine
+import NA.Spec.AsaDev
 import NA.Core.IOUtil
-/-! Driver stub for C01 (not built yet): echoes its input. -/
+/-!
+Driver `nadrv-c01`: the ASA diff engine on fragment F1 (NA/Model/AsaEngine.lean) and the strict
+specification-side device (NA/Spec/AsaDev.lean).
+
+Input: one case per line, tab separated `key=value` fields
+  ai  device interfaces (nameif), `,`
+  ag / bg  groups   `name:m1,m2;name:…`           (members without `network-object `)
+  aa / ba  ACLs     `name#body~nolog~r1,r2#…;…`   (body with `$REF` placeholders)
+  ab / bb  bindings `acl dir intf,…`
+  ar / br  routes   `text~dst~sortKey,…`
+  sa  Myers scripts of ACL pairs    `aName>bName:lowA,highA,lowB,highB/…;…`
+  sg  Myers scripts of group pairs  (same; on the sorted member lists)
+Output: tab separated
+  rej=1                         checkASAInterfaces fails
+  rej=0 valid=… script=l1|l2|…  hits=h:n,…  exec=ok|rejected@k:why  final=<view>  left=<left-over objects>
+-/
+namespace NA.Drv.C01
+open NA.F1 NA.IOUtil
+open NA.Acl (Range)
+
+def splitOnNE (s : String) (sep : String) : List String := if s.isEmpty then [] else s.splitOn sep
+
+def parseGroups (s : String) : List (Name × List String) :=
+  (splitOnNE s ";").map fun g =>
+    match g.splitOn ":" with
+    | [n, ms] => (n, splitOnNE ms ",")
+    | _ => (g, [])
+
+def parseLine (s : String) : Line :=
+  match s.splitOn "~" with
+  | [b, nl, rs] => ⟨b, nl, splitOnNE rs ","⟩
+  | _ => ⟨s, s, []⟩
+
+def parseAcls (s : String) : List (Name × List Line) :=
+  (splitOnNE s ";").map fun a =>
+    match a.splitOn "#" with
+    | n :: ls => (n, ls.map parseLine)
+    | [] => ("", [])
+
+def parseBinds (s : String) : List Bind :=
+  (splitOnNE s ",").map fun b =>
+    match b.splitOn " " with
+    | [a, d, i] => ⟨a, d, i⟩
+    | _ => ⟨b, "", ""⟩
+
+def parseRoutes (s : String) : List Route :=
+  (splitOnNE s ",").map fun r =>
+    match r.splitOn "~" with
+    | [t, d, k] => ⟨t, d, k.toNat?.getD 0⟩
+    | _ => ⟨r, r, 0⟩
+
+def parseRange (s : String) : Option Range :=
+  match (splitComma s).mapM String.toNat? with
+  | some [a, b, c, d] => some ⟨a, b, c, d⟩
+  | _ => none
+
+def parseScripts (s : String) : List ((Name × Name) × List Range) :=
+  (splitOnNE s ";").filterMap fun e =>
+    match e.splitOn ":" with
+    | [k, rs] =>
+      match k.splitOn ">" with
+      | [a, b] => some ((a, b), (splitOnNE rs "/").filterMap parseRange)
+      | _ => none
+    | _ => none
+
+def fieldsOf (line : String) : List (String × String) :=
+  (splitTab line).map fun f =>
+    match f.splitOn "=" with
+    | k :: rest => (k, "=".intercalate rest)
+    | [] => ("", "")
+
+def get (fs : List (String × String)) (k : String) : String := (fs.lookup k).getD ""
+
+/-- A script is valid for the key lists `a`, `b` (contiguous, in bounds, equal ranges equal). -/
+def validScript (a b : List String) (rs : List Range) : Bool :=
+  let all := a ++ b
+  let enc := fun (l : List String) => l.map fun s => ({ key := all.idxOf s, mkey := 0, permit := true } : NA.Acl.Line)
+  (NA.Acl.cellsOf (enc a) (enc b) rs).isSome
+
+/-- No member is both deleted and inserted (holds for the optimal script of two sorted duplicate-free lists). -/
+def disjointEdit (a b : List String) (rs : List Range) : Bool :=
+  let dels := rs.flatMap fun r => if r.isDelete then slice a r.lowA r.highA else []
+  let inss := rs.flatMap fun r => if !r.isDelete && r.isInsert then slice b r.lowB r.highB else []
+  !(dels.any inss.contains)
+
+def countHits (hs : List String) : String :=
+  let keys := (sortS hs).eraseDups
+  ",".intercalate (keys.map fun k => k ++ ":" ++ toString (hs.filter (· == k)).length)
+
+def answer (line : String) : String :=
+  let fs := fieldsOf line
+  let a : Config := { intfs := splitOnNE (get fs "ai") ",", groups := parseGroups (get fs "ag"),
+                      acls := parseAcls (get fs "aa"), binds := parseBinds (get fs "ab"), routes := parseRoutes (get fs "ar") }
+  let b : Config := { groups := parseGroups (get fs "bg"), acls := parseAcls (get fs "ba"),
+                      binds := parseBinds (get fs "bb"), routes := parseRoutes (get fs "br") }
+  let sc : Scripts := { acl := parseScripts (get fs "sa"), grp := parseScripts (get fs "sg") }
+  let e : Env := ⟨a, b, sc⟩
+  let validA := sc.acl.all fun p => validScript ((e.aLines p.1.1).map (·.body)) ((e.bLines p.1.2).map (·.body)) p.2
+  let validG := sc.grp.all fun p =>
+    validScript (e.aMembers p.1.1) (e.bMembers p.1.2) p.2 && disjointEdit (e.aMembers p.1.1) (e.bMembers p.1.2) p.2
+  match engine a b sc with
+  | none => "rej=1"
+  | some r =>
+    let lines := showChanges r.script
+    let ex := NA.AsaDev.run (NA.AsaDev.ofConfig a) r.script
+    let exec := match ex.2 with
+      | none => "ok"
+      | some (k, why) => s!"rejected@{k}:{why}"
+    "\t".intercalate [
+      "rej=0",
+      "valid=" ++ (if validA && validG then "1" else if validA then "G" else "A"),
+      "script=" ++ "|".intercalate lines,
+      "hits=" ++ countHits r.hits,
+      "exec=" ++ exec,
+      "final=" ++ NA.AsaDev.view ex.1 (b.binds.map fun x => (x.dir, x.intf)) (!b.routes.isEmpty),
+      "left=" ++ ",".intercalate (NA.AsaDev.leftovers ex.1)]
+
+end NA.Drv.C01
+
 def main (_ : List String) : IO UInt32 := do
-  NA.IOUtil.eachLine id
+  NA.IOUtil.eachLine NA.Drv.C01.answer
   return 0
